@@ -5734,6 +5734,8 @@ class CodegenCtx:
                     else:
                         contents.add(f"// allocate space for {out_expr.name}")
                         contents.add(f"state->c.{out_expr.name} = malloc({out_expr.str_size});")
+                        if out_expr.str_null:
+                            contents.add(f"state->c.{out_expr.name}[0] = 0;")
 
             # Run any start actions
             if self.start_actions:
